@@ -276,12 +276,15 @@ def classify(f, out, outs):
     return None
 
 
-def plan(tier, seed):
+def _plan(tier, seed):
     n = 16
     return [{'part': p, 'parts': n} for p in range(n)] + [{'lists': i} for i in range(2 if tier == 'quick' else 8)]
 
 
 def run_shard(shard, ctx):
+    if isinstance(shard, dict) and 'mixed' in shard:
+        from ..mixed import run_mixed
+        return run_mixed(ctx, ID, shard['n'])
     import random
     if 'replay' in shard:
         c = shard['replay']
@@ -298,3 +301,8 @@ def finish(r, tier, seed):
     return {'contexts': {k: v for k, v in r.counters.items() if k.startswith('context:')},
             'depths': {k: v for k, v in r.counters.items() if k.startswith('depth:')},
             'exhaustive': False, 'exhaustive_subspaces': ['all 125 skeletons of IF/IFS/IFERROR nests of depth <= 2 x 11 contexts x all truth assignments (<=32) of their condition cells']}
+
+
+def plan(tier, seed):
+    # 'mixed': nests over the whole function set that use at least one function of this property (vf/mixed.py)
+    return _plan(tier, seed) + [{'mixed': k, 'n': 3 if tier == 'quick' else 60} for k in range(3 if tier == 'quick' else 8)]
